@@ -148,3 +148,37 @@ package index
 //@   exit [newest-loadable-wins] result1 == nil ==> (result0 != nil && firstLoadable(elems(snapshotEpochs), off(snapshotEpochs), 0, len(snapshotEpochs)) >= 0 &&
 //@         result0.epoch == snapshotEpochs[firstLoadable(elems(snapshotEpochs), off(snapshotEpochs), 0, len(snapshotEpochs))])
 //@   exit [error-only-if-none-loadable] result1 != nil ==> firstLoadable(elems(snapshotEpochs), off(snapshotEpochs), 0, len(snapshotEpochs)) < 0 || isnil(snapshotEpochs)
+
+// ---------------------------------------------------------------------------
+// C15: ownership discipline of the shared state (lock sets, atomics)
+// ---------------------------------------------------------------------------
+// Every read or write of a guarded field happens with its lock held (shared is enough for reads),
+// except on objects created by the current activation and not yet published; every function
+// returns with the lock set it was entered with.
+
+//@ type Writer
+//@   props C15 C05
+//@   guarded_by(rootLock) root, rootPersisted, persistedCallbacks
+//@   atomic_only nextSegmentID
+
+//@ type Snapshot
+//@   props C15 C04
+//@   guarded_by(m) refs
+//@   guarded_by(m2) fieldTFRs
+
+//@ type closeOnLastRefCounter
+//@   props C15 C11
+//@   guarded_by(m) refs
+
+//@ sweep lockset C15
+
+//@ type Stats
+//@   props C15
+//@   atomic_only *
+
+// the reference for the caller is taken while rootLock is still held (otherwise the root could be
+// replaced and released between the unlock and the addRef)
+//@ func Writer.currentSnapshot
+//@   props C15 C04
+//@   lockset
+//@   at call addRef: assert heldR[addr(s, rootLock)] || heldW[addr(s, rootLock)]
